@@ -276,7 +276,7 @@ def gen_case(r, idx, profile):
             mid = r.choice([0, 1, g.bmid])
         pl = payload()
         g.sn(publish(tit, tid, mid, pl, qos, r.random() < 0.15, r.random() < 0.2))
-        if qos == 1 and rd >= 200 and r.random() < 0.12:
+        if qos == 1 and rd >= 200 and r.random() < (0.4 if profile == 'collide' else 0.12):
             # the client retransmits its PUBLISH (DUP, same message ID); the broker's PUBACK arrives
             # after the first exchange has timed out but while the retransmission's is still alive
             g.sn(publish(tit, tid, mid, pl, qos, True, False), gap=max(1, rd * 6 // 1000))
@@ -438,6 +438,15 @@ def gen_case(r, idx, profile):
         bq = r.choice([1, 2])
         bpub = "publish dup=0 qos=%d retain=0 mid=%d topic=%s payload=%s" % (bq, m, H(bname), H(b'B'))
         cpub = publish(2, 0x6162, m, b'C', cq)
+        if rd >= 200 and r.random() < 0.2:
+            # a superseded exchange: the client retransmits its QoS-1 PUBLISH (DUP, same ID); the first
+            # exchange times out; the PUBACK arrives while the retransmission's exchange is alive
+            g1 = max(1, rd * 6 // 1000)
+            g.sn(publish(2, 0x6162, m, b'C', 1))
+            g.sn(publish(2, 0x6162, m, b'C', 1, True), gap=g1)
+            g.q += rd // 100 - g1
+            g.mq("puback %d" % m, gap=0)
+            return
         steps = []
         v = r.random()
         if v < 0.45:
